@@ -237,6 +237,14 @@ func (r *Runner) addrDerived(hash []byte, tag string) {
 			}
 		}
 	}
+	// the same programs with a Bech32m checksum (BIP350): not addresses this library knows
+	for _, hrp := range []string{"bc", "tb", "ltc"} {
+		for _, wv := range []byte{0, 1} {
+			for _, p := range [][]byte{hash, append(append([]byte{}, hash...), hash[:12]...)} {
+				all(hBechEncodeRawConst(hrp, append([]byte{wv}, hTo5(p)...), 0x2bc830a3), tag+"-bech32m", fmt.Sprintf("hrp %s witness version %d, %d-byte program", hrp, wv, len(p)))
+			}
+		}
+	}
 	for _, hrp := range []string{"bc", "tb", "ltc"} {
 		for _, n := range []int{1, 2, 19, 21, 31, 33, 40, 41} {
 			p := r.bytesN(n)
